@@ -96,7 +96,6 @@ func renderFields(f map[string]any) map[string]string {
 
 // ------------------------------------------------------------------ the cross product
 
-
 var shapes = []struct {
 	name string
 	key  func(base string) string
@@ -231,6 +230,12 @@ func TestCrossProduct(t *testing.T) {
 							}
 						}
 						prog = append(prog, stmts...)
+						// follow-up: read the subject key back the way later statements of a script would
+						prog = append(prog, gen.NCall("probe", str("after-get_key"), gen.NCall("get_key", gen.NStr(k))))
+						if sh.name != "attr" {
+							prog = append(prog, gen.NCall("probe", str("after-read"), gen.NIdent(k), gen.NCall("len", gen.NIdent(k))),
+								gen.NCall("uppercase", gen.NStr(k)), gen.NCall("probe", str("after-upper"), gen.NCall("get_key", gen.NStr(k))))
+						}
 						c := sem.NewCase(gen.FixAll(prog))
 						c.Fields, c.Tags = fields, tags
 						nt := !(sit == "field" && sh.name == "underscore" && fmt.Sprintf("%T", v) == "string")
